@@ -110,7 +110,16 @@ fn one_case(ctx: &Ctx, case: u64, l: &mut Local) {
         }
         // (a) via the previous presentation
         let via = match api::holder_new(&cur_pres, cfg.fmt) {
-            Outcome::Ok(mut h) => api::present(&mut h, &sel2, None),
+            Outcome::Ok(mut h) => {
+                // in odd cases the holder built from the presentation first makes ANOTHER narrowing
+                // (result discarded) and then the one under test: the holder is reusable
+                if case % 2 == 1 {
+                    let other = gen::narrow_selection(&mut r, &cur_sel);
+                    let _ = api::present(&mut h, &other, None);
+                    l.count("step.via-holder-reused");
+                }
+                api::present(&mut h, &sel2, None)
+            }
             other => other.map(|_| String::new()),
         };
         // (b) directly
